@@ -7,7 +7,7 @@ from props import c06_extract as T
 
 NSLOT, NOBJ, NVAR, NCALL, NSENT = 10, 4, 4, 4, 4
 LAYOUTS = [(1, 1), (1, 2), (2, 1), (3, 1)]      # replace_program() family: variables of the first / second inherit
-NEFUN = 90
+NEFUN = 92
 # groups that build a cycle while they run (an error injected in the middle legitimately leaves cyclic garbage) or
 # keep a call_out handle in a local (71: the injected error would leave the call_out pending)
 NO_FAULT = (13, 48, 71)
@@ -625,9 +625,9 @@ class C06(Prop):
                   "and the real interpreter (LPC style) and the model on the same generated histories with identical per-value "
                   "counters and driver statistics")
     level_note = ("PARTIAL: the theorems cover the counting primitives and conventions; that each of the ~250 efuns and "
-                  "~120 opcode cases follows the convention on every path is only observed (89 efun/operator groups: per-value "
+                  "~120 opcode cases follows the convention on every path is only observed (92 efun/operator groups: per-value "
                   "counters and statistics equal the model after every operation, also with an error injected at every "
-                  "instruction of 86 of them, counters back at the baseline, ASan), not proved.  The top statement "
+                  "instruction of 89 of them, counters back at the baseline, ASan), not proved.  The top statement "
                   "`judge (model trace) = []` is proved clause-wise only for the per-value comparisons (oracle_ref_clause, "
                   "oracle_freed_clause, oracle_leak_clause, oracle_string_clauses: on every model state the oracle's holder count equals "
                   "the counter / is 0 for freed values; oracle_accepts_model_state: the oracle's declarative collection step is the identity on "
@@ -647,9 +647,9 @@ class C06(Prop):
             "classes / mapping keys and values / function pointer arguments, a callback that installs a new input_to, "
             "assignment to array / buffer range lvalues (temporary / shared right-hand side, same / other length, statement / value form), "
             "input_to refused while one is pending, function pointers compiled into the object's own or the inherited program (func_ref of both), "
-            "destruct + deferred cleanup, errors thrown under live frames, 64 efun/operator groups with results dropped (every "
+            "destruct + deferred cleanup, errors thrown under live frames, 67 efun/operator groups with results dropped (among them mapping composition m * n, m *= n, m *= m) (every "
             "lvalue-assignment form, operators and efuns taken from the opcode histogram), an error "
-            "injected at the k-th instruction (or at every instruction in turn) of 86 efun groups and of restore_variable, "
+            "injected at the k-th instruction (or at every instruction in turn) of 89 efun groups and of restore_variable, "
             "25 'value builder aborted half-way' groups (callbacks of map/filter/sort/unique/implode raising after k calls, "
             "aggregates and call_other arguments with a failing element, sprintf/sscanf/regexp/allocate errors, built-in "
             "sort refusing its input) and restore_variable / restore_object on valid and damaged save texts (every "
@@ -658,7 +658,7 @@ class C06(Prop):
             "cyclic containers; a case is non-trivial when it has >= 2 executed operations; distinct = distinct "
             "canonical implementation trace")
     not_covered = ["that every efun (~250) and every opcode case (~120) follows the ownership convention on every path, "
-                   "including every error path, is observed on the generated programs only (89 efun/operator groups, 86 of them "
+                   "including every error path, is observed on the generated programs only (92 efun/operator groups, 89 of them "
                    "with an error injected at every instruction), not proved; 70 of the 216 operator / one-argument-efun opcodes are never "
                    "executed (integer arithmetic, unused encodings, simul_efun, stateful / user / file-system efuns: list in notes/C06.md)",
                    "the top statement judge (model trace) = [] is proved only clause-wise for the per-value comparisons on model states "
@@ -955,6 +955,9 @@ class C06(Prop):
             "free 3", "drop 1"])
         mk("functionals-bind-lpc", "lpc", ["newobj 0", "newarr 0 2", "efun 89 0 0", "newffun 1 0 1", "efun 89 0 1", "fefun 89 0 0 0", "free 1", "free 0",
                                            "dest 0", "efun 89 0 0", "cleanup", "drop 0"])
+        # mapping composition (m * n, m *= n, m *= m in place) on closed / partially closed / disjoint mappings
+        mk("mapping-composition-lpc", "lpc", ["newarr 0 2", "newmap 1", "mset 1 0 0", "efun 90 0 1", "efun 91 0 1", "efun 90 1 0", "efun 91 1 1",
+                                              "fefun 90 0 1 0", "fefun 91 0 1 0", "free 0", "free 1"])
         mk("errors-lpc", "lpc", ["newarr 0 2", "newmap 1", "newobj 0", "mset 1 0 0", "err 0 1", "efun 10 0 1",
                                  "efun 11 0 1", "err 1 0", "free 0", "free 1", "dest 0", "cleanup", "drop 0"])
         # repaired defects: copy() beyond the nesting limit leaked the partial copy; copy() of a class miscounted arrays
